@@ -546,15 +546,39 @@ class Flow:
             elif how[0] == "iter":
                 alts.append(self._iter_value(how[1], how[2], d, depth, st))
         # de-duplicate structurally
-        uniq, seen = [], set()
-        for a in alts:
+        uniq, seen, udefs = [], set(), []
+        for a, d in zip(alts, sorted(defs, key=lambda x: x.id)):
             k = ast.dump(a)
             if k not in seen:
                 seen.add(k)
                 uniq.append(a)
+                udefs.append(d)
         if len(uniq) == 1:
             return uniq[0]
+        if getattr(self, "gated", False) and len(uniq) == 2:
+            g = self._gate(udefs[0], udefs[1], node)
+            if g is not None:
+                test, first_is_true = g
+                t = self.expand(test.expr, test, depth - 1, stack)
+                a, b = (uniq[0], uniq[1]) if first_is_true else (uniq[1], uniq[0])
+                return self._call("__gamma__", t, a, b)
         return self._call("__phi__", *uniq)
+
+    def _gate(self, d1, d2, use):
+        """a test node whose two edges separate the definitions d1 / d2 (gated phi): returns (test node, d1-on-true-edge)"""
+        cfg = self.cfg
+        e1 = {(t, lab) for t, lab in cfg.edges_dominating(d1) if t.kind == "test"}
+        e2 = {(t, lab) for t, lab in cfg.edges_dominating(d2) if t.kind == "test"}
+        for t, lab in e1:
+            if (t, not lab) in e2:
+                # the test's own inputs must not be redefined between the test and the use: accept when no definition of
+                # a name read by the test lies on a path test -> use
+                names = {x.id for x in ast.walk(t.expr) if isinstance(x, ast.Name)}
+                between = cfg.reach(t, avoid={use}) if use is not None else set()
+                clobber = any(n in self._defs and names & set(self._defs[n]) for n in between if n is not t)
+                if not clobber:
+                    return t, bool(lab)
+        return None
 
     def used_defs(self, expr, node, _seen=None):
         """transitive set of (name, defnode) of local definitions the value of expr at node depends on."""
